@@ -222,7 +222,7 @@ def gen_fs_mutations(tree, src):
             if root in FS_MODULE_CALLS and (FS_MODULE_CALLS[root] is None or last in FS_MODULE_CALLS[root]):
                 out.append("%s::%s" % (nm, arg0))
                 continue
-        if isinstance(c.func, ast.Attribute) and c.func.attr in FS_METHODS:
+        if isinstance(c.func, ast.Attribute) and c.func.attr in FS_METHODS and not (c.func.attr in ("replace", "rename") and len(c.args) != 1):
             out.append("%s::%s" % ("<expr>." + c.func.attr if nm is None else nm, arg0))
     return "/-- every call in cli/main.py that can create, change or remove a file -/\ndef fs_mutations : List String :=\n  [%s]\n" % ", ".join(slit(x) for x in out)
 
